@@ -8,6 +8,7 @@
 package vsim
 
 import (
+	"net/http"
 	"bytes"
 	"crypto/sha256"
 	"encoding/hex"
@@ -101,6 +102,8 @@ type World struct {
 	// selected files) are scheduling decisions. Off: they cost nothing. Set by the scenario (root)
 	// before it starts the tasks that may reach such points.
 	PreemptOn bool
+	// DefaultTransport: what vsim.HTTPTransport (rule R10) hands to code that builds its own http.Transport.
+	DefaultTransport http.RoundTripper
 	// StallPM / StallBudget: at a preemption point the task is, with this probability (per mille, drawn
 	// on the root) and at most StallBudget times per run, descheduled for a drawn while of SIMULATED time
 	// (a slow or starved thread: 1 ms .. 5 s) while everything else goes on. The budget is per task.
